@@ -149,4 +149,4 @@ def tasks(tier, seed):
             systems.append(s)
     systems = systems[: (10 if tier == "quick" else 32)]
     n = min(len(systems), 10 if tier == "quick" else 16)
-    return [dict(id="C06.euler.%02d" % i, fn="task_euler", kwargs=dict(systems=systems[i::n], deadline=400 if tier == "quick" else 1500), timeout=2400 if tier == "quick" else 7000) for i in range(n)]
+    return [dict(id="C06.euler.%02d" % i, fn="task_euler", kwargs=dict(systems=systems[i::n], deadline=400 if tier == "quick" else 900), timeout=2400 if tier == "quick" else 4000) for i in range(n)]
